@@ -167,10 +167,28 @@ def check(prog, ctx):
     cf = prog.fn(cf_callee.split(':', 1)[1])
     ser = prog.fn(ser_callee.split(':', 1)[1])
     # complements
-    for name, want in (('GammaP', lambda: 1 - FN('GammaQ')(x, a)),):
-        fn = prog.fn(L + name)
-        v, s2 = single_return(prog, fn)
-        ctx.decide('C06.b', name, fn, is_zero(v - want()), '%s = 1 - GammaQ(x,a)' % name, '%s returns %s' % (name, v), form=str(v))
+    # GammaP + GammaQ = 1 as an identity of terms: on every sample (x,a) the path GammaP takes and the path GammaQ takes must
+    # add up to one symbolically (P computed by one algorithm and Q by another only agree to their separate accuracies)
+    fnp = prog.fn(L + 'GammaP')
+    sxp = Symx(prog, fnp)
+    xp_, ap_ = sxp.symbol(fnp.params[0]['name'], 'double'), sxp.symbol(fnp.params[1]['name'], 'double')
+    pouts = sxp.run()
+    GQ = FN('GammaQ')
+    badp = []
+    for xv, av in rows:
+        if xv < 0 or av <= 0:
+            continue
+        selp = [o for o in pouts if o.cond.subs({xp_: xv, ap_: av}) == S.true]
+        selq = [o for o in outs if o.cond.subs({x: xv, a: av}) == S.true]
+        if len(selp) != 1 or len(selq) != 1 or selp[0].kind != 'return' or selq[0].kind != 'return':
+            badp.append('x=%s a=%s: %d GammaP paths / %d GammaQ paths' % (xv, av, len(selp), len(selq)))
+            continue
+        vp = selp[0].value.subs({xp_: x, ap_: a}) if isinstance(selp[0].value, sp.Basic) else selp[0].value
+        vq = selq[0].value
+        if not (is_zero(vp + GQ(x, a) - 1) or is_zero(vp + vq - 1)):
+            badp.append('x=%s a=%s: GammaP returns %s while GammaQ returns %s' % (xv, av, vp, vq))
+    ctx.decide('C06.b', 'GammaP', fnp, not badp, 'GammaP + GammaQ = 1 identically on every branch pair (%d rows)' % len(rows),
+               'GammaP and GammaQ do not add up to one as terms: %s' % badp[:2], witness={'rows': badp[:3]} if badp else None)
     xs, ss = Symbol('x', real=True), Symbol('s', real=True)
     for name, qp in (('Upper_Incomplete_Gamma', 'GammaQ'), ('Lower_Incomplete_Gamma', 'GammaP')):
         fn = prog.fn(L + name)
